@@ -33,7 +33,7 @@ Proof.
   intros Ht. induction s as [|c s IH]; [reflexivity|].
   cbn [filter]. destruct (lt256 c) eqn:E.
   - rewrite !map_bytes_cons, IH. reflexivity.
-  - rewrite map_bytes_cons, IH. unfold tbl_entry. rewrite tbl_get_oob; [reflexivity|]. unfold lt256 in E. apply N.ltb_ge in E. rewrite Ht. exact E.
+  - rewrite map_bytes_cons, IH. unfold tbl_entry. rewrite tbl_get_oob; [reflexivity|]. unfold lt256 in E. apply N.ltb_ge in E. unfold bytes in *. rewrite Ht. exact E.
 Qed.
 
 (* a property of all table entries below 256 holds of the whole image, for arbitrary lists of N *)
@@ -51,7 +51,7 @@ Proof. induction 1 as [|l ls Hl Hs IH]; [reflexivity|]. cbn [concat]. rewrite fo
 
 (* ---------- what "neutralised" means ---------- *)
 Definition no_qmeta (b : bytes) : Prop := forallb (fun c => negb (is_quote_meta c)) b = true.
-(* no < > " ' and every & starts a well-formed entity reference (QuoteProofs.html_item) *)
+(* no less-than, greater-than, double or single quote, and every & starts a well-formed entity reference (QuoteProofs.html_item) *)
 Definition markup_free (b : bytes) : Prop :=
   no_qmeta b /\ exists items, b = concat items /\ Forall html_item items.
 
@@ -74,7 +74,7 @@ Proof.
   - apply html_quote_items, filter_lt256_ok.
 Qed.
 
-(* rfc1738_escape_part leaves none of < > " ' & *)
+(* rfc1738_escape_part leaves no markup metacharacter at all *)
 Definition plain (c : N) : bool := negb (is_html_meta c).
 Lemma escape_part_plain p : forallb plain (escape_part p) = true.
 Proof.
@@ -113,4 +113,204 @@ Proof.
   unfold no_qmeta, dump. rewrite !forallb_app.
   rewrite (unreserved_no_qmeta s_cache_error_info), (unreserved_no_qmeta (e_page_name st)),
           (unreserved_no_qmeta (e_dump_body st)). reflexivity.
+Qed.
+
+(* ---------- the regenerated macro table against the hand-assigned source classes ---------- *)
+Definition dq_kind (l : N) : N :=
+  match assocN l em_cases with Some ((dq, _), _) => dq | None => fst em_default end.
+Definition nue_kind (l : N) : N :=
+  match assocN l em_cases with Some ((_, nue), _) => nue | None => snd em_default end.
+
+Definition letters_of_class (f : srcclass -> bool) : list N :=
+  map fst (filter (fun e => f (snd e)) class_table).
+Definition is_Client (c : srcclass) : bool := match c with Client => true | _ => false end.
+Definition client_letters : list N := letters_of_class is_Client.
+
+Lemma assocN_in {A} (l : list (N * A)) k v : assocN k l = Some v -> In (k, v) l.
+Proof.
+  induction l as [|[k' v'] r IH]; cbn [assocN]; [discriminate|].
+  destruct (k =? k') eqn:E; intros H.
+  - apply N.eqb_eq in E. subst k'. injection H as <-. left. reflexivity.
+  - right. apply IH, H.
+Qed.
+
+Lemma is_client_in l : is_client l = true -> In l client_letters.
+Proof.
+  unfold is_client, src_class. destruct (assocN l class_table) as [c|] eqn:E; [|discriminate].
+  intros H. apply assocN_in in E. unfold client_letters, letters_of_class.
+  apply in_map_iff. exists (l, c). split; [reflexivity|]. apply filter_In. split; [exact E|].
+  cbn [snd]. destruct c; try discriminate. reflexivity.
+Qed.
+
+(* the flags start as the code declares them, the two epilogue statements are in place, and no case of a
+   client-controlled letter assigns do_quote *)
+Definition table_check : bool :=
+  em_init_do_quote && negb em_init_no_urlescape && em_epilogue_html_quote && em_epilogue_urlescape &&
+  forallb (fun l => dq_kind l =? 0) client_letters.
+Lemma table_ok : table_check = true.
+Proof. vm_compute. reflexivity. Qed.
+
+Lemma client_dq l : is_client l = true -> dq_kind l = 0.
+Proof.
+  intros H. apply is_client_in in H. pose proof table_ok as T. unfold table_check in T.
+  apply andb_prop in T. destruct T as [_ T]. rewrite forallb_forall in T. apply N.eqb_eq, T, H.
+Qed.
+
+(* every letter the hand-written classes call client-controlled has a case of its own in the switch *)
+Lemma client_letters_have_cases : forallb (fun l => match assocN l em_cases with Some _ => true | None => false end)
+                                          client_letters = true.
+Proof. vm_compute. reflexivity. Qed.
+
+(* ---------- one macro ---------- *)
+Definition piece_ok (st : estate) (p : piece) : Prop :=
+  match p with
+  | PMac l out =>
+    (is_client l = true -> markup_free out) /\
+    (l = 87 -> no_qmeta out) /\
+    (l = 103 -> e_ftp_listing st = None -> markup_free out)
+  | _ => True
+  end.
+
+Lemma cstr_forallb p s : forallb p s = true -> forallb p (cstr s) = true.
+Proof.
+  induction s as [|c s IH]; cbn [cstr forallb]; [reflexivity|]. intros H. apply andb_prop in H. destruct H as [Hc Hs].
+  destruct (c =? 0); [reflexivity|]. cbn [forallb]. rewrite Hc, (IH Hs). reflexivity.
+Qed.
+
+(* the epilogue on a value whose case did not clear do_quote *)
+Lemma quoted_out_markup_free (u : bool) v :
+  markup_free (let p := cstr v in let p := html_q p in if u then escape_part p else p).
+Proof.
+  cbv zeta. destruct u; [apply plain_markup_free, escape_part_plain|apply html_q_markup_free].
+Qed.
+
+Lemma epilogue_quoted deny l nuek r :
+  Forall (fun p => match p with PMac _ out => markup_free out | _ => True end) (epilogue deny l 0 nuek r).
+Proof.
+  unfold epilogue. cbv [em_init_do_quote em_init_no_urlescape em_epilogue_html_quote em_epilogue_urlescape].
+  change (flag_ran 0 (sw_cond r)) with false. cbn [negb andb orb].
+  destruct (sw_nested r); constructor; try constructor; apply quoted_out_markup_free.
+Qed.
+
+Lemma epilogue_shape (P : piece -> Prop) deny l dqk nuek r :
+  (forall inner, sw_nested r = Some inner -> Forall P inner) -> (forall out, P (PMac l out)) ->
+  Forall P (epilogue deny l dqk nuek r).
+Proof.
+  unfold epilogue. cbv zeta. intros Hn Hp. destruct (sw_nested r) as [inner|].
+  - match goal with |- Forall P (if ?b then _ else _) => destruct b end;
+      [apply Hn; reflexivity|constructor; [apply Hp|constructor]].
+  - constructor; [apply Hp|constructor].
+Qed.
+
+Lemma epilogue_quoted_l deny l nuek r :
+  Forall (fun p => exists out, p = PMac l out /\ markup_free out) (epilogue deny l 0 nuek r).
+Proof.
+  unfold epilogue. cbv [em_init_do_quote em_init_no_urlescape em_epilogue_html_quote em_epilogue_urlescape].
+  change (flag_ran 0 (sw_cond r)) with false. cbn [negb andb orb].
+  destruct (sw_nested r); constructor; try constructor; eexists; (split; [reflexivity|apply quoted_out_markup_free]).
+Qed.
+
+Lemma legacy_switch_nested rec st deny allowRec insig l two r :
+  legacy_switch rec st deny allowRec insig l two = Some r ->
+  forall inner, sw_nested r = Some inner -> exists a i t, rec a i t = Some inner.
+Proof.
+  unfold legacy_switch. destruct (l =? 68).
+  { destruct (negb allowRec); [intros H; injection H as <-; discriminate|].
+    destruct (e_detail_verbose st) as [raw|]; [|intros H; injection H as <-; discriminate].
+    destruct (rec false insig raw) as [inner0|] eqn:E; [|discriminate].
+    destruct (is_empty (flatten inner0)); intros H; injection H as <-; cbn [sw_nested svc]; intros inner Hi;
+      [discriminate|]. injection Hi as <-. eauto. }
+  destruct (l =? 83).
+  { destruct deny; [intros H; injection H as <-; discriminate|].
+    destruct (negb insig); [|intros H; injection H as <-; discriminate].
+    destruct (rec true true (e_sig_template st)) as [inner0|] eqn:E; [|discriminate].
+    intros H; injection H as <-. cbn [sw_nested]. intros inner Hi. injection Hi as <-. eauto. }
+  destruct (plain_switch st deny l two) as [v c]. intros H; injection H as <-. discriminate.
+Qed.
+
+(* what the switch leaves for %W and %g *)
+Lemma legacy_switch_W rec st allowRec insig two r :
+  legacy_switch rec st false allowRec insig 87 two = Some r -> sw_nested r = None /\ no_qmeta (sw_val r).
+Proof.
+  unfold legacy_switch. change (87 =? 68) with false. change (87 =? 83) with false. cbv iota.
+  cbn [plain_switch]. intros H. injection H as <-. cbn [sw_nested sw_val]. split; [reflexivity|].
+  destruct (e_admin_email st); [|reflexivity]. destruct (e_email_err_data st); [apply dump_no_qmeta|reflexivity].
+Qed.
+
+Lemma legacy_switch_g rec st deny allowRec insig two r :
+  e_ftp_listing st = None ->
+  legacy_switch rec st deny allowRec insig 103 two = Some r -> sw_nested r = None /\ sw_cond r = false.
+Proof.
+  intros Hl. unfold legacy_switch. change (103 =? 68) with false. change (103 =? 83) with false. cbv iota.
+  cbn [plain_switch]. rewrite Hl. intros H. injection H as <-. split; reflexivity.
+Qed.
+
+Lemma not_client_87 : is_client 87 = false. Proof. reflexivity. Qed.
+Lemma not_client_103 : is_client 103 = false. Proof. reflexivity. Qed.
+Lemma case_87 : assocN 87 em_cases = Some ((2, 2), (true, false)). Proof. reflexivity. Qed.
+Lemma case_103 : assocN 103 em_cases = Some ((1, 0), (true, false)). Proof. reflexivity. Qed.
+
+Lemma markup_free_piece_ok st l out : markup_free out -> piece_ok st (PMac l out).
+Proof. intros H. cbn [piece_ok]. repeat split; intros; try exact H; apply H. Qed.
+
+Lemma deny_break_piece_ok st l : Forall (piece_ok st) (epilogue true l 0 0 (sv [])).
+Proof.
+  eapply Forall_impl; [|apply epilogue_quoted_l]. intros p [out [-> Hm]]. apply markup_free_piece_ok, Hm.
+Qed.
+
+Lemma legacy_code_ok rec st deny allowRec insig l two ps :
+  (forall a i t ps', rec a i t = Some ps' -> Forall (piece_ok st) ps') ->
+  legacy_code rec st deny allowRec insig l two = Some ps -> Forall (piece_ok st) ps.
+Proof.
+  intros Hrec. unfold legacy_code.
+  assert (Hq : forall nuek r, Forall (piece_ok st) (epilogue deny l 0 nuek r)).
+  { intros nuek r. eapply Forall_impl; [|apply epilogue_quoted_l]. intros p [out [-> Hm]].
+    apply markup_free_piece_ok, Hm. }
+  destruct (is_client l) eqn:Hc.
+  - (* client-controlled letter: its case never clears do_quote *)
+    pose proof (client_dq l Hc) as Hd. unfold dq_kind in Hd.
+    destruct (assocN l em_cases) as [[[dqk nuek] [db ft]]|].
+    + subst dqk. destruct (deny && db); [intros H; injection H as <-; apply Hq|].
+      destruct (legacy_switch rec st deny allowRec insig l two); [|discriminate].
+      intros H; injection H as <-. apply Hq.
+    + cbn [fst] in Hd. rewrite Hd. intros H; injection H as <-. apply Hq.
+  - destruct (l =? 87) eqn:E87; [apply N.eqb_eq in E87; subst l|].
+    { (* %W *)
+      rewrite case_87. destruct deny; cbn [andb].
+      - intros H; injection H as <-. apply Hq.
+      - destruct (legacy_switch rec st false allowRec insig 87 two) as [r|] eqn:Es; [|discriminate].
+        intros H; injection H as <-. apply legacy_switch_W in Es. destruct Es as [Hn Hv].
+        unfold epilogue. rewrite Hn. cbv [em_init_do_quote em_init_no_urlescape em_epilogue_html_quote em_epilogue_urlescape].
+        change (flag_ran 2 (sw_cond r)) with true. cbn [negb andb orb]. constructor; [|constructor]. cbn [piece_ok].
+        rewrite not_client_87. split; [intros Hx; discriminate Hx|].
+        split; [intros _; apply cstr_forallb, Hv|intros Hx; discriminate Hx]. }
+    destruct (l =? 103) eqn:E103; [apply N.eqb_eq in E103; subst l|].
+    { (* %g *)
+      rewrite case_103. destruct deny; cbn [andb].
+      - intros H; injection H as <-. apply Hq.
+      - destruct (legacy_switch rec st false allowRec insig 103 two) as [r|] eqn:Es; [|discriminate].
+        intros H; injection H as <-.
+        destruct (e_ftp_listing st) as [lst|] eqn:El.
+        + apply epilogue_shape.
+          * intros inner Hi. destruct (legacy_switch_nested _ _ _ _ _ _ _ _ Es inner Hi) as [a [i [t Hr]]].
+            apply (Hrec _ _ _ _ Hr).
+          * intros out. cbn [piece_ok]. rewrite not_client_103. split; [intros Hx; discriminate Hx|].
+            split; [intros Hx; discriminate Hx|intros _ Hl; rewrite El in Hl; discriminate Hl].
+        + apply (legacy_switch_g _ _ _ _ _ _ _ El) in Es. destruct Es as [Hn Hcnd].
+          unfold epilogue. rewrite Hn, Hcnd.
+          cbv [em_init_do_quote em_init_no_urlescape em_epilogue_html_quote em_epilogue_urlescape].
+          change (flag_ran 1 false) with false. cbn [negb andb orb]. constructor; [|constructor].
+          apply markup_free_piece_ok. apply (quoted_out_markup_free false). }
+    (* every other letter: nothing is claimed about its own output; recursively compiled text keeps its pieces *)
+    assert (Hp : forall out, piece_ok st (PMac l out)).
+    { intros out. cbn [piece_ok]. rewrite Hc. split; [intros Hx; discriminate Hx|].
+      split; intros ->; discriminate. }
+    destruct (assocN l em_cases) as [[[dqk nuek] [db ft]]|].
+    + destruct (deny && db).
+      * intros H; injection H as <-. apply epilogue_shape; [intros inner Hi; discriminate|exact Hp].
+      * destruct (legacy_switch rec st deny allowRec insig l two) as [r|] eqn:Es; [|discriminate].
+        intros H; injection H as <-. apply epilogue_shape; [|exact Hp].
+        intros inner Hi. destruct (legacy_switch_nested _ _ _ _ _ _ _ _ Es inner Hi) as [a [i [t Hr]]].
+        apply (Hrec _ _ _ _ Hr).
+    + intros H; injection H as <-. apply epilogue_shape; [intros inner Hi; discriminate|exact Hp].
 Qed.
